@@ -15,8 +15,8 @@ RULE = ('formulas of depth <= 4 over the variables A-F and the constants 0 1 wit
         'otherwise, sat_count/2 equals the number of satisfying assignments of the variables occurring in the formula, labeling/1 after '
         'sat/1 enumerates exactly the satisfying assignments, each once; the same after two posted constraints; taut/2 and sat_count/2 '
         'under a posted constraint. distinct = distinct (formula, operation); non-trivial = formula neither tautology nor contradiction')
-PARAMS = {'quick': {'n': 500}, 'thorough': {'n': 30000}}
-MIN_EVAL = {'quick': 30000, 'thorough': 2000000}
+PARAMS = {'quick': {'n': 500}, 'thorough': {'n': 12000}}
+MIN_EVAL = {'quick': 30000, 'thorough': 800000}
 STRATA = ['sat', 'taut', 'sat_count', 'labeling', 'two-constraints', 'taut-under-constraint', 'count-under-constraint', 'with-card', 'with-list-connective',
           'tautology', 'contradiction', 'contingent']
 ASSUMPTIONS = ['sat_count/2 counts assignments of the variables that occur in its argument (documented); under a posted constraint only assignments '
